@@ -5,13 +5,18 @@
 // Case layout (global index g = shardIndex*shardSize + i, so the exhaustive part
 // is the same for every seed and is split over the shards):
 //
-//	g = 0                 witness of known finding 0 (ghost move)
-//	1 <= g <= E           "trie" cases: the (g-1)-th operation prefix in
+//	g = 0, 1              witnesses of known finding 0 (ghost move): the 3-operation
+//	                      one (rename a child out, rename the empty directory) and
+//	                      the 4-operation one (delete the child instead)
+//	2 <= g <= E+1         "trie" cases: the (g-2)-th operation prefix in
 //	                      length-lexicographic order over the 40-letter alphabet,
 //	                      followed by ALL 40 alphabet operations as branches
 //	                      (quick: prefixes of length <= 2, i.e. every sequence of
 //	                      length <= 3; thorough: length <= 3, every sequence <= 4)
-//	g > E                 random: odd -> random prefix of length 3..6 with all 40
+//	E+1 < g <= E+1+47     "trieR" cases: root node present, alphabet extended by
+//	                      Set/Ensure/Delete on "/" and "/c" (46 letters), every
+//	                      prefix of length <= 1 followed by all 46 letters
+//	g > E+48              random: odd -> random prefix of length 3..6 with all 40
 //	                      branches; even -> random sequence of 5..30 operations
 //	                      (also on "/", on extra paths, and Get) followed by a
 //	                      Get sweep over every path of depth <= 3.
@@ -135,31 +140,117 @@ func (o op) canon() string {
 
 // ---- driving the real cache ----
 
+// node modes: every case runs in all three
+const (
+	modeOpaque = iota // idNode values: Move's type switches ignore them
+	modeDir           // real *filesys.Dir values
+	modeMixed         // *filesys.File (with an entry) for nodes inserted at leaf-like paths, *filesys.Dir otherwise
+)
+
 type world struct {
-	c     *filesys.FsCache
-	useFs bool // real *filesys.Dir nodes instead of idNode
-	ids   map[fs.Node]uint64
+	c    *filesys.FsCache
+	mode int
+	ids  map[fs.Node]uint64
 }
 
-func (w *world) mk(id uint64) fs.Node {
+// in mixed mode a node inserted here is a *File
+func filePath(p string) bool {
+	return len(util.FullPath(p).Split()) >= 2 && p != "/a/x"
+}
+
+func (w *world) mk(id uint64, path string) fs.Node {
 	var n fs.Node
-	if w.useFs {
-		n = filesys.VerifNewDir(id)
-	} else {
+	switch {
+	case w.mode == modeOpaque:
 		n = &idNode{id}
+	case w.mode == modeMixed && filePath(path):
+		n = filesys.VerifNewFileWithEntry(id, "e")
+	default:
+		n = filesys.VerifNewDir(id)
 	}
 	w.ids[n] = id
 	return n
 }
 
-func newWorld(useFs bool, root int64) *world {
-	w := &world{useFs: useFs, ids: map[fs.Node]uint64{}}
+func newWorld(mode int, root int64) *world {
+	w := &world{mode: mode, ids: map[fs.Node]uint64{}}
 	if root >= 0 {
-		w.c = filesys.VerifNewFsCache(w.mk(uint64(root)))
+		w.c = filesys.VerifNewFsCache(w.mk(uint64(root), "/"))
 	} else {
 		w.c = filesys.VerifNewFsCache(nil)
 	}
 	return w
+}
+
+var nameConst = map[string]string{"a": "sa", "b": "sb", "c": "sc", "x": "sx", "y": "sy"}
+
+func coqName(n string) string {
+	if c, ok := nameConst[n]; ok {
+		return c
+	}
+	return hx.Str(n)
+}
+
+func coqParts(parts []string) string {
+	p := "/" + strings.Join(parts, "/")
+	if c, ok := pathConst[p]; ok {
+		return c
+	}
+	xs := make([]string, len(parts))
+	for i, s := range parts {
+		xs[i] = coqName(s)
+	}
+	return "[" + strings.Join(xs, ";") + "]"
+}
+
+// dump walks the real structure; a broken link or a cut-off walk becomes an entry no model accepts.
+func (w *world) dump() (string, []filesys.VerifDumpEntry) {
+	es, bad, trunc := filesys.VerifDump(w.c)
+	xs := make([]string, 0, len(es)+1)
+	for _, e := range es {
+		xs = append(xs, "("+coqParts(e.Path)+","+w.optId(e.Node)+")")
+	}
+	if bad > 0 || trunc {
+		xs = append(xs, "(pR,o)")
+	}
+	return "[" + strings.Join(xs, ";") + "]", es
+}
+
+// attr projects the fields Move rewrites on a real node.
+func (w *world) attr(n fs.Node) string {
+	pid := func(d *filesys.Dir) string {
+		if d == nil {
+			return "o"
+		}
+		return w.optId(d)
+	}
+	switch x := n.(type) {
+	case *filesys.Dir:
+		id, name, parent := filesys.VerifDirInfo(x)
+		return fmt.Sprintf("(At %s %s %s)", vcode(true, id), coqName(name), pid(parent))
+	case *filesys.File:
+		id, name, dir := filesys.VerifFileInfo(x)
+		if en, has := filesys.VerifFileEntryName(x); has && en != name {
+			name = "entry:" + en + "/file:" + name
+		}
+		return fmt.Sprintf("(At %s %s %s)", vcode(true, id), coqName(name), pid(dir))
+	}
+	return "A0"
+}
+
+// harness-side count of ghost moves (known finding 0), for the evidence only
+var ghostSteps, ghostCases int
+
+func under(prefix, p []string) bool {
+	if len(prefix) > len(p) {
+		return false
+	}
+	for i := range prefix {
+		if prefix[i] != p[i] {
+			return false
+		}
+	}
+	return true
 }
 
 func (w *world) optId(n fs.Node) string {
@@ -173,16 +264,18 @@ func (w *world) optId(n fs.Node) string {
 	return vcode(true, id)
 }
 
-// apply runs one operation and returns the Coq obs record.
-func (w *world) apply(o op) (obs string, sawNode bool) {
+// apply runs one operation and returns the Coq obs record as (everything but the
+// attributes, attributes); ghost = the step was a ghost move.
+func (w *world) apply(o op) (base, attr string, sawNode, ghost bool) {
 	ret, flagv := "o", false
+	attr = "A0"
 	switch o.kind {
 	case opSet:
-		w.c.SetFsNode(util.FullPath(o.p), w.mk(o.id))
+		w.c.SetFsNode(util.FullPath(o.p), w.mk(o.id, o.p))
 	case opEnsure:
 		n := w.c.EnsureFsNode(util.FullPath(o.p), func() fs.Node {
 			flagv = true
-			return w.mk(o.id)
+			return w.mk(o.id, o.p)
 		})
 		ret = w.optId(n)
 	case opGet:
@@ -190,7 +283,22 @@ func (w *world) apply(o op) (obs string, sawNode bool) {
 	case opDelete:
 		w.c.DeleteFsNode(util.FullPath(o.p))
 	case opMove:
-		flagv = w.c.Move(util.FullPath(o.p), util.FullPath(o.q)) != nil
+		_, before := w.dump()
+		moved := w.c.Move(util.FullPath(o.p), util.FullPath(o.q))
+		flagv = moved != nil
+		attr = w.attr(filesys.VerifFsNodeNode(moved))
+		if flagv {
+			srcLive, dstLive := false, false
+			for _, e := range before {
+				if e.Node != nil && under(util.FullPath(o.p).Split(), e.Path) {
+					srcLive = true
+				}
+				if e.Node != nil && under(util.FullPath(o.q).Split(), e.Path) {
+					dstLive = true
+				}
+			}
+			ghost = !srcLive && dstLive
+		}
 	}
 	all := make([]string, len(lookupU))
 	for i, p := range lookupU {
@@ -199,8 +307,9 @@ func (w *world) apply(o op) (obs string, sawNode bool) {
 			sawNode = true
 		}
 	}
-	// R ret flag c1..c12 (coq/check/C39.v); the 12 positions are univ12 = lookupU
-	return fmt.Sprintf("(R %s %s %s)", ret, hx.Bool(flagv), strings.Join(all, " ")), sawNode
+	// R ret flag c1..c12 dump attr (coq/check/C39.v); the 12 positions are univ12 = lookupU
+	d, _ := w.dump()
+	return fmt.Sprintf("R %s %s %s %s", ret, hx.Bool(flagv), strings.Join(all, " "), d), attr, sawNode, ghost
 }
 
 func number(prefix []op, branches []op) ([]op, []op) {
@@ -217,48 +326,105 @@ func number(prefix []op, branches []op) ([]op, []op) {
 	return p, b
 }
 
+type caseRun struct {
+	pbase, pattr, bbase, battr, fobs []string
+	nontrivial                       bool
+	ghosts                           int
+	panicked                         bool
+}
+
 // runCase replays prefix (+ each branch on a fresh replay) in one node mode.
-func runCase(useFs bool, root int64, prefix, branches []op, final []string) (pobs, bobs, fobs []string, nontrivial bool) {
-	w := newWorld(useFs, root)
+// Mixed mode may panic (a *File that became the parent of a moved node:
+// connectToParent's unchecked type assertion); the run is then dropped.
+func runCase(mode int, root int64, prefix, branches []op, final []string) (cr caseRun) {
+	defer func() {
+		if r := recover(); r != nil {
+			if mode != modeMixed {
+				panic(r)
+			}
+			cr = caseRun{panicked: true}
+		}
+	}()
+	w := newWorld(mode, root)
 	for _, o := range prefix {
-		s, saw := w.apply(o)
-		pobs = append(pobs, s)
-		nontrivial = nontrivial || saw
+		b, a, saw, g := w.apply(o)
+		cr.pbase, cr.pattr = append(cr.pbase, b), append(cr.pattr, a)
+		cr.nontrivial = cr.nontrivial || saw
+		if g {
+			cr.ghosts++
+		}
 	}
 	for _, p := range final {
-		fobs = append(fobs, w.optId(w.c.GetFsNode(util.FullPath(p))))
+		cr.fobs = append(cr.fobs, w.optId(w.c.GetFsNode(util.FullPath(p))))
 	}
-	for _, b := range branches {
-		w2 := newWorld(useFs, root)
+	for _, br := range branches {
+		w2 := newWorld(mode, root)
 		for _, o := range prefix {
 			w2.apply(o)
 		}
-		s, saw := w2.apply(b)
-		bobs = append(bobs, s)
-		nontrivial = nontrivial || saw
+		b, a, saw, g := w2.apply(br)
+		cr.bbase, cr.battr = append(cr.bbase, b), append(cr.battr, a)
+		cr.nontrivial = cr.nontrivial || saw
+		if g {
+			cr.ghosts++
+		}
 	}
 	return
 }
 
+func (cr caseRun) baseKey() string {
+	return strings.Join(cr.pbase, "|") + "#" + strings.Join(cr.bbase, "|") + "#" + strings.Join(cr.fobs, "|")
+}
+func (cr caseRun) attrKey() string {
+	return strings.Join(cr.pattr, "|") + "#" + strings.Join(cr.battr, "|")
+}
+
 func emit(out *hx.Out, kind string, root int64, prefix, branches []op, final []string) {
 	prefix, branches = number(prefix, branches)
-	p1, b1, f1, nt := runCase(false, root, prefix, branches, final)
-	p2, b2, f2, _ := runCase(true, root, prefix, branches, final)
-	if strings.Join(p1, "|") != strings.Join(p2, "|") || strings.Join(b1, "|") != strings.Join(b2, "|") || strings.Join(f1, "|") != strings.Join(f2, "|") {
-		// real *Dir nodes behave differently from opaque nodes: let Coq see the *Dir run
-		p1, b1, f1 = p2, b2, f2
-		out.Count("dirmode-differs", 1)
+	opq := runCase(modeOpaque, root, prefix, branches, final)
+	dir := runCase(modeDir, root, prefix, branches, final)
+	mix := runCase(modeMixed, root, prefix, branches, final)
+	// the *Dir run carries the attribute observations and is the one Coq sees; a
+	// run in another mode that differs from it (lookups/dump for opaque nodes,
+	// also the attributes for File/Dir nodes) is emitted as a case of its own
+	emitRun(out, kind, root, prefix, branches, final, dir)
+	if dir.ghosts > 0 {
+		ghostCases++
+		ghostSteps += dir.ghosts
+		out.Count("ghost-move-steps(finding 0)", dir.ghosts)
+		out.Count("cases-with-ghost-move(finding 0)", 1)
 	}
+	if opq.baseKey() != dir.baseKey() {
+		out.Count("opaque-mode-differs", 1)
+		emitRun(out, kind+"-opaque", root, prefix, branches, final, opq)
+	}
+	switch {
+	case mix.panicked:
+		out.Count("mixed-mode-panic(File parent)", 1)
+	case mix.baseKey() != dir.baseKey() || mix.attrKey() != dir.attrKey():
+		out.Count("mixed-mode-differs", 1)
+		emitRun(out, kind+"-mixed", root, prefix, branches, final, mix)
+	default:
+		out.Count("mixed-mode-agrees", 1)
+	}
+}
+
+func emitRun(out *hx.Out, kind string, root int64, prefix, branches []op, final []string, cr caseRun) {
 	ops := make([]string, len(prefix))
 	canon := make([]string, len(prefix))
+	pobs := make([]string, len(prefix))
 	for i, o := range prefix {
 		ops[i] = o.coq()
 		canon[i] = o.canon()
+		pobs[i] = "(" + cr.pbase[i] + " " + cr.pattr[i] + ")"
 		out.Count("op:"+[]string{"set", "ensure", "get", "delete", "move"}[o.kind], 1)
+		if o.kind == opMove && cr.pattr[i] != "A0" {
+			out.Count("move-with-attributes", 1)
+		}
 	}
 	br := make([]string, len(branches))
 	for i, o := range branches {
-		br[i] = hx.Pair(o.coq(), b1[i])
+		br[i] = hx.Pair(o.coq(), "("+cr.bbase[i]+" "+cr.battr[i]+")")
 	}
 	rootS := "None"
 	if root >= 0 {
@@ -266,13 +432,13 @@ func emit(out *hx.Out, kind string, root int64, prefix, branches []op, final []s
 	}
 	fin := "[]"
 	if len(final) > 0 {
-		fin = "(F " + hx.List(f1) + ")" // F pairs the values with sweep85 (same order as sweep())
+		fin = "(F " + hx.List(cr.fobs) + ")" // F pairs the values with sweep85 (same order as sweep())
 	}
 	term := fmt.Sprintf("{| root := %s; univ := univ12; ops := %s; impl := %s; branches := %s; final := %s |}",
-		rootS, hx.List(ops), hx.List(p1), hx.List(br), fin)
+		rootS, hx.List(ops), hx.List(pobs), hx.List(br), fin)
 	out.Count("sequences", maxInt(1, len(branches)))
 	out.Count(fmt.Sprintf("prefixlen:%02d", len(prefix)), 1)
-	out.Add(term, fmt.Sprintf("%s|r%d|%s|b%d", kind, root, strings.Join(canon, ";"), len(branches)), nt, kind)
+	out.Add(term, fmt.Sprintf("%s|r%d|%s|b%d", kind, root, strings.Join(canon, ";"), len(branches)), cr.nontrivial, kind)
 }
 
 func maxInt(a, b int) int {
@@ -283,7 +449,7 @@ func maxInt(a, b int) int {
 }
 
 // the idx-th prefix in length-lexicographic order
-func triePrefix(idx int) []op {
+func triePrefix(alphabet []op, idx int) []op {
 	a := len(alphabet)
 	l, count := 0, 1
 	for idx >= count {
@@ -297,6 +463,15 @@ func triePrefix(idx int) []op {
 		idx /= a
 	}
 	return p
+}
+
+// the alphabet plus Set/Ensure/Delete on "/" and "/c" (used with a root node)
+func alphabetR() []op {
+	a := append([]op{}, alphabet...)
+	for _, p := range []string{"/", "/c"} {
+		a = append(a, op{kind: opSet, p: p}, op{kind: opEnsure, p: p}, op{kind: opDelete, p: p})
+	}
+	return a
 }
 
 var extraPaths = []string{"/", "/a/y", "/b/y", "/b/x/y", "/a/x/x", "/c"}
@@ -354,7 +529,7 @@ func sweep() []string {
 func main() {
 	shardSize := flag.Int("shard", 250, "cases per shard (must equal checks/C39.json \"shard\")")
 	out := hx.Flags("C39", 500)
-	out.Rule = "global index g = (seed mod 1000)*shard + i: g=0 the ghost-move witness; then bounded-exhaustive 'trie' cases = every operation prefix (alphabet: Set/Ensure/Delete on 5 paths /a,/b,/a/x,/a/x/y,/b/x and Move over all 25 pairs = 40 letters) of length <= 2 (quick) or <= 3 (thorough) each followed by all 40 letters as branches, i.e. every sequence of length <= 3 resp. <= 4; then random cases: prefixes of length 3..6 with all 40 branches, and sequences of 5..30 operations (also on /, extra paths, Get) followed by a Get sweep of all 85 paths of depth <= 3 over {a,b,x,y}; every operation is followed by GetFsNode of 12 paths; each case runs twice (opaque fs.Node values and real *filesys.Dir values); non-trivial = some lookup returned a node; distinct = canonical prefix + branch count"
+	out.Rule = "global index g = (seed mod 1000)*shard + i: g=0,1 the ghost-move witnesses (3 operations; 4 operations continued after the ghost move); then bounded-exhaustive 'trie' cases = every operation prefix (alphabet: Set/Ensure/Delete on 5 paths /a,/b,/a/x,/a/x/y,/b/x and Move over all 25 pairs = 40 letters) of length <= 2 (quick) or <= 3 (thorough) each followed by all 40 letters as branches, i.e. every sequence of length <= 3 resp. <= 4; then 'trieR' = the same with a root node and 6 more letters (Set/Ensure/Delete on / and /c) to prefix length 1; then random cases: prefixes of length 3..6 with all 40 branches (root node in 1/3), and sequences of 5..30 operations (also on /, extra paths, Get; root node in 1/2) followed by a Get sweep of all 85 paths of depth <= 3 over {a,b,x,y}; every operation is followed by GetFsNode of 12 paths, a dump of the whole FsNode structure (hook VerifDump: placeholders, any depth, link consistency) and, for a Move, the moved node's name/parent fields; each case runs three times (opaque fs.Node values, real *filesys.Dir values, *File-with-entry/*Dir mix) and the runs must coincide, a deviating run is emitted as an extra case; ghost-move steps (finding 0) are counted by the harness from the dumps; non-trivial = some lookup returned a node; distinct = canonical prefix + branch count"
 	k := int(out.Seed % 1000)
 	offset := k * *shardSize
 	maxPrefix := 2
@@ -371,23 +546,37 @@ func main() {
 	}
 	root := hx.NewRng(out.Seed)
 	sw := sweep()
+	aR := alphabetR()
+	ER := 1 + len(aR)
 	for i := 0; i < out.N; i++ {
 		r := root.Fork()
 		g := offset + i
 		switch {
 		case g == 0:
-			// known finding 0: Set /a/x; Delete /a/x leaves the placeholder /a; Set /b; Move /a /b wipes /b
-			emit(out, "witness", -1, []op{{kind: opSet, p: "/a/x"}, {kind: opDelete, p: "/a/x"}, {kind: opSet, p: "/b"}},
+			// known finding 0, shortest form: Set /a/x; Move /a/x /b leaves the placeholder /a; Move /a /b wipes /b
+			emit(out, "witness", -1, []op{{kind: opSet, p: "/a/x"}, {kind: opMove, p: "/a/x", q: "/b"}},
 				[]op{{kind: opMove, p: "/a", q: "/b"}}, nil)
-		case g <= E:
-			emit(out, "trie", -1, triePrefix(g-1), alphabet, nil)
+		case g == 1:
+			// the same through a delete: Set /a/x; Delete /a/x leaves the placeholder /a; Set /b; Move /a /b wipes /b;
+			// the sequence goes on after the ghost move (checked against the restarted flat reference)
+			emit(out, "witness", -1, []op{{kind: opSet, p: "/a/x"}, {kind: opDelete, p: "/a/x"}, {kind: opSet, p: "/b"},
+				{kind: opMove, p: "/a", q: "/b"}, {kind: opSet, p: "/b/x"}, {kind: opMove, p: "/b", q: "/a/x/y"}, {kind: opDelete, p: "/a/x"}},
+				alphabet, sw)
+		case g <= E+1:
+			emit(out, "trie", -1, triePrefix(alphabet, g-2), alphabet, nil)
+		case g <= E+1+ER:
+			emit(out, "trieR", 50, triePrefix(aR, g-E-2), aR, nil)
 		case g%2 == 1:
 			n := r.Range(3, 6)
 			p := make([]op, n)
 			for j := range p {
 				p[j] = alphabet[r.Intn(len(alphabet))]
 			}
-			emit(out, "randtrie", -1, p, alphabet, nil)
+			rootId := int64(-1)
+			if r.Chance(1, 3) {
+				rootId = 50
+			}
+			emit(out, "randtrie", rootId, p, alphabet, nil)
 		default:
 			n := r.Range(5, 30)
 			p := make([]op, n)
